@@ -105,7 +105,7 @@ def run(tier: str, seed: int) -> int:
         rep.sample({"kind": kind, "program": desc}, cap=6)
         for key, what in out["fails"]:
             rep.violation(key, f"{desc}: {what}", {"program": p})
-    rep.extra["programs"] = counts
+    rep.extra["program_counts"] = counts
     rep.extra["instances_dropped_for_32bit_overflow"] = len(dropped)
     rep.assumptions = [
         "polynomial right-hand sides / residuals only (degree <= 2 in the jet variables, <= 3 in t, coefficients in {-1,0,1,2}), integer coefficient lists and times",
